@@ -25,6 +25,7 @@ type Conn struct {
 	eof        bool
 	taken      int
 	readerDone chan struct{}
+	stopSleep  chan struct{} // closed by Close: ends a slow reader's pause
 	srvDone    chan struct{}
 	srvErr     error
 	wq         chan []byte // write queue: one writer goroutine issues the Write calls in order
@@ -46,7 +47,7 @@ func newConn(w *World, remote string) *Conn { return newConnOpts(w, remote, nil)
 
 func newConnOpts(w *World, remote string, opts []func(*Conn)) *Conn {
 	c1, c2 := net.Pipe()
-	c := &Conn{w: w, Remote: remote, client: c1, server: c2, readerDone: make(chan struct{}), srvDone: make(chan struct{}), nextID: 1,
+	c := &Conn{w: w, Remote: remote, client: c1, server: c2, readerDone: make(chan struct{}), stopSleep: make(chan struct{}), srvDone: make(chan struct{}), nextID: 1,
 		wq: make(chan []byte, 1<<14), writerDone: make(chan struct{})}
 	for _, o := range opts {
 		o(c)
@@ -101,7 +102,13 @@ func (c *Conn) reader() {
 			c.ReadHook(n)
 		}
 		if d := c.readDelay.Load(); d > 0 && err == nil {
-			time.Sleep(time.Duration(d))
+			// (a select, not a sleep: Close ends the pause, and a goroutine waiting here counts as parked for the live engine)
+			tm := time.NewTimer(time.Duration(d))
+			select {
+			case <-tm.C:
+			case <-c.stopSleep:
+				tm.Stop()
+			}
 		}
 		if err != nil {
 			return
@@ -201,6 +208,7 @@ func (c *Conn) Close() {
 	}
 	c.closed = true
 	close(c.wq)
+	close(c.stopSleep)
 	c.mu.Unlock()
 	_ = c.client.Close()
 }
